@@ -145,6 +145,11 @@ def structural_update0(op, tree_tpl, parallel=False):
     if o == 'moveupd':
         return {'agents': {'_move': [{'source': (op['k'],), 'target': 'pool',
                                       'update': {'v': {'x': 3}}}]}}
+    if o == 'movegen':
+        g = template(op['tpl'], op['x0'], parallel)
+        g['key'] = op['k']
+        return {'agents': {'_move': [{'source': (op['k'],), 'target': 'pool'}],
+                           '_generate': [g]}}
     if o == 'moveback':
         return {'pool': {'_move': [{'source': (op['k'],), 'target': 'agents'}]}}
     if o == 'adddel':
@@ -590,6 +595,8 @@ def applicable_ops(model, tpls=('T1', 'T2', 'T3'), names=NAMES, max_comps=3):
             if k not in po:
                 ops.append({'op': 'move', 'k': k})
                 ops.append({'op': 'moveupd', 'k': k})
+                if n < max_comps:
+                    ops.append({'op': 'movegen', 'k': k, 'tpl': tpls[0], 'x0': 0})
             free = [d for d in names if d not in ag]
             if len(free) >= 2 and n < max_comps:
                 ops.append({'op': 'div', 'k': k, 'd1': free[0], 'd2': free[1]})
@@ -622,6 +629,9 @@ def apply_model(model, op):
         m['agents'][op['d2']] = t
     if o in ('move', 'moveupd'):
         m['pool'][op['k']] = m['agents'].pop(op['k'])
+    if o == 'movegen':
+        m['pool'][op['k']] = m['agents'].pop(op['k'])
+        m['agents'][op['k']] = op['tpl']
     if o == 'moveback':
         m['agents'][op['k']] = m['pool'].pop(op['k'])
     return m
